@@ -80,6 +80,8 @@ package circuitbreaker
 //@   prop C20
 //@   nopanic
 //@   havoc
+//@   arith exact
+//@   requires [timestamps_are_after_1970] cb.lastFailTime >= 0 && ghost.clock >= 0
 //@   modifies @NEXT_IO
 //@   requires cb != nil
 //@   stable cb.failCount, cb.lastFailTime, cb.threshold, cb.recoverTime
